@@ -242,6 +242,8 @@ def _b_sorted(it, args, kwargs, node):
     items = ops.iterate(it, args[0], node)
     key = kwargs.get("key")
     rev = kwargs.get("reverse", False)
+    if len(items) <= 1 and not is_abstract(rev):
+        return list(items)
     keys = [_keyfunc(it, key, node)(x) for x in items]
     if any(is_abstract(k) for k in keys) or is_abstract(rev):
         it.event("abstract_sort", node=node)
